@@ -175,7 +175,32 @@ func sinkCell(s scanSink) *ssa.Alloc {
 			}
 		}
 	}
-	return nil
+	// the filled slice is a plain SSA value (not captured where it is filled) that reaches a cell later through joins —
+	// the shape left by an inlined "collect" helper: candidates, err := r0, r1
+	seen := map[ssa.Value]bool{}
+	var follow func(v ssa.Value, depth int) *ssa.Alloc
+	follow = func(v ssa.Value, depth int) *ssa.Alloc {
+		if seen[v] || depth > 8 || v.Referrers() == nil {
+			return nil
+		}
+		seen[v] = true
+		for _, ref := range *v.Referrers() {
+			switch x := ref.(type) {
+			case *ssa.Store:
+				if x.Val == v {
+					if a, ok := x.Addr.(*ssa.Alloc); ok {
+						return a
+					}
+				}
+			case *ssa.Phi:
+				if a := follow(x, depth+1); a != nil {
+					return a
+				}
+			}
+		}
+		return nil
+	}
+	return follow(s.Call, 0)
 }
 
 // ruleResultOrder: every sort.Slice in the per-query routine sorts ascending on the float field, and
